@@ -12,21 +12,27 @@ theorem clientErr_serverErr (e : GoErr) :
     clientErr .repaired (serverErr .repaired e).1 (serverErr .repaired e).2 = some (arrives e) := by
   cases e with
   | plain m =>
-    simp only [serverErr, clientErr, arrives, descOr, cpPlainErrRet, cpOkRet, cpCodeLo, cpCodeHi]
-    simp
+    by_cases hm : m = [] <;>
+      simp [serverErr, clientErr, arrives, descOr, cpPlainErrRet, cpOkRet, cpCodeLo, cpCodeHi, hm]
   | tars c m =>
-    simp only [serverErr, arrives, descOr, cpSuccessCode, cpPlainErrRet, cpCodeLo, cpCodeHi]
     by_cases h0 : c = 0
-    · subst h0; simp [clientErr, cpOkRet, cpCodeLo, cpCodeHi]
-    · have h0' : c ≠ ((0 : Nat) : Int) := by simpa using h0
-      simp only [h0', ne_eq, not_false_eq_true, if_true, clientErr, cpOkRet, cpCodeLo, cpCodeHi]
-      by_cases h1 : c = 1
-      · subst h1; simp
-      · have h1' : ¬ c = ((1 : Nat) : Int) := by simpa using h1
-        simp [h1']
+    · subst h0
+      by_cases hm : m = [] <;>
+        simp [serverErr, clientErr, arrives, descOr, cpSuccessCode, cpPlainErrRet, cpOkRet, cpCodeLo,
+          cpCodeHi, hm]
+    · by_cases h1 : c = 1
+      · subst h1
+        by_cases hm : m = [] <;>
+          simp [serverErr, clientErr, arrives, descOr, cpSuccessCode, cpPlainErrRet, cpOkRet, cpCodeLo,
+            cpCodeHi, hm]
+      · by_cases hm : m = [] <;>
+          simp [serverErr, clientErr, arrives, descOr, cpSuccessCode, cpOkRet, cpCodeLo,
+            cpCodeHi, hm, h0, h1]
 
 theorem clientErr_ok : clientErr .repaired (cpDispatchRet : Nat) [] = none := by
   simp [clientErr, cpDispatchRet, cpOkRet]
+
+theorem clientErr_ok' : clientErr .repaired 0 [] = none := by decide
 
 theorem transparent_empty_client (α σ ε : Type) (nil : α) :
     Transparent (runClient nil ({} : Reg ε σ α)) [] [] := by
@@ -42,7 +48,7 @@ theorem transparent_client {ε σ α : Type} (nil : α) (reg : Reg ε σ α) (b 
   intro d s
   rw [runClient_eq_runServer]
   cases h with
-  | single f hs hf => exact runServer_single _ nil reg f b a hs hf d s
+  | single f _ _ hs hf => exact runServer_single _ nil reg f _ _ hs hf d s
   | mws ms hs hm hne hp => exact runServer_mws _ nil reg ms hs hm hne hp d s
   | sides pre post hs hm hpre hpost h1 h2 =>
     exact runServer_sides_repaired nil reg pre post hs hm hpre hpost h1 h2 d s
@@ -52,7 +58,7 @@ theorem transparent_server {ε σ α : Type} (nil : α) (reg : Reg ε σ α) (b 
     (h : PassReg nil reg b a) : Transparent (runServer .repaired nil reg) b a := by
   intro d s
   cases h with
-  | single f hs hf => exact runServer_single _ nil reg f b a hs hf d s
+  | single f _ _ hs hf => exact runServer_single _ nil reg f _ _ hs hf d s
   | mws ms hs hm hne hp => exact runServer_mws _ nil reg ms hs hm hne hp d s
   | sides pre post hs hm hpre hpost h1 h2 =>
     exact runServer_sides_repaired nil reg pre post hs hm hpre hpost h1 h2 d s
